@@ -381,9 +381,25 @@ func Run(cs Case, c *vrt.Ctx) {
 	if refOpen == "" {
 		switch {
 		case refErr != "" && first.err == "":
-			c.Fail("no-error", "Plan.Execute", fmt.Sprintf("an error is due (%s) but the plan completed with %s; %s", refErr, clip(first.root), ctx), tags...)
+			t := tags
+			if r.feats["zone-minutes"] {
+				// the recorded finding C20-K2 (zone reads seconds where its description says minutes)
+				// can change which branch a plan takes: attributed only when the reference in the
+				// seconds reading gives exactly the outcome
+				// (no error is due in that reading: it gives this result, or leaves the case open)
+				if r2, e2, o2 := reference(cs, freshPlan(cs), true); e2 == "" && (o2 != "" || render(r2.root, 0) == first.root) {
+					t = append(append([]string{}, tags...), "explained-by-zone-seconds")
+				}
+			}
+			c.Fail("no-error", "Plan.Execute", fmt.Sprintf("an error is due (%s) but the plan completed with %s; %s", refErr, clip(first.root), ctx), t...)
 		case refErr == "" && first.err != "":
-			c.Fail("unexpected-error", "Plan.Execute", fmt.Sprintf("%s; expected %s; %s", clip(first.err), clip(render(r.root, 0)), ctx), tags...)
+			t := tags
+			if r.feats["zone-minutes"] {
+				if _, e2, o2 := reference(cs, freshPlan(cs), true); e2 != "" || o2 != "" {
+					t = append(append([]string{}, tags...), "explained-by-zone-seconds")
+				}
+			}
+			c.Fail("unexpected-error", "Plan.Execute", fmt.Sprintf("%s; expected %s; %s", clip(first.err), clip(render(r.root, 0)), ctx), t...)
 		case refErr == "":
 			if want := render(r.root, 0); want != first.root {
 				w, g := window(want, first.root)
@@ -1066,6 +1082,6 @@ var classifiers = []vrt.Classifier{
 	// C20-K2: zone reads a numeric location as seconds east of UTC (pinned by asm/zone_test.go)
 	// while its description says "the number of minutes offset from UTC".
 	{ID: "C20-K2", Match: func(d vrt.Disc, c *vrt.Ctx) bool {
-		return d.Kind == "wrong-result" && has(d, "explained-by-zone-seconds")
+		return (d.Kind == "wrong-result" || d.Kind == "no-error" || d.Kind == "unexpected-error") && has(d, "explained-by-zone-seconds")
 	}},
 }
